@@ -27,35 +27,24 @@ theorem C10_noninterference_reads (st1 st2 st1' st2' : State) (t : Tid) (k : Sid
     st1'.threads t = st2'.threads t ∧ st1'.pers = st1.pers ∧ st1'.sess = st1.sess :=
   query_step_own_view hv htodo hq h1 h2
 
-/-- full statement of (b): every answer equals the set-semantics answer over persistent ∪ own facts.
-    For the count query: the number of *distinct* facts. -/
-def C10_b_statement : Prop :=
-  ∀ (rules : Nat) (p f : List Tup), p.Nodup → f.Nodup → evalCount rules p f = specCount rules p f
+/-- (b): every answer equals the set-semantics answer over persistent ∪ own facts. For the count query:
+    the number of *distinct* facts (`specCount` counts `dedup (p ++ f)`), whatever the overlap between
+    the session's facts `f` and the persistent relation `p`. Full theorem since the repair of
+    `execute_with_session_facts*` (`extend_as_set`); scan queries are set-semantic by definition
+    (`evalScan = dedup`). `p.Nodup` holds in every reachable state (`C10_lists_duplicate_free`). -/
+theorem C10_b (rules : Nat) (p f : List Tup) (hp : p.Nodup) : evalCount rules p f = specCount rules p f :=
+  evalCount_eq_spec rules p f hp
 
-/-! Refuted: persistent `r0(1)`, session fact `r0(1)`, session rule `cnt(count<X>) <- r0(X)`, query
-    `?cnt(N)`: the isolated vector is `[1] ++ [1]` and the aggregate answers 2; the set has one element. -/
-theorem C10_b_refuted : ¬ C10_b_statement := by
-  intro h
-  have := h 1 [1] [1] (by decide) (by decide)
-  revert this; decide
-
-/-- the same through the step system: one thread, four operations -/
+/-- the former counter-example (persistent `r0(1)`, session `r0(1)`, count rule): one distinct fact -/
+example : evalCount 1 [1] [1] = [1] := by decide
 def wProg : List Op := [.pIns 0 1, .sIns 0 0 1, .sRule 0, .qCount 0]
-example : ((lastState (init [wProg]) [0, 0, 0, 0, 0, 0, 0]).threads 0).done.map (·.2) = [.ok, .n 1, .ok, .rows [2]] := by decide
-
-/-- Partial: when no session fact of `r0` duplicates a persistent fact the count is the set count;
-    scan queries are set-semantic by definition (`evalScan = dedup`); and in every reachable state the
-    persistent relations and the session fact lists are duplicate-free, so the hypothesis about
-    duplicates *across* the two is the only one that can fail. -/
-theorem C10_b_partial (rules : Nat) (p f : List Tup) (hp : p.Nodup) (hf : f.Nodup) (hd : ∀ x ∈ f, x ∉ p) :
-    evalCount rules p f = specCount rules p f :=
-  evalCount_eq_spec rules p f hp hf hd
+example : ((lastState (init [wProg]) [0, 0, 0, 0, 0, 0, 0]).threads 0).done.map (·.2) = [.ok, .n 1, .ok, .rows [1]] := by decide
 
 theorem C10_lists_duplicate_free (progs : List (List Op)) (sched : List Tid) :
     NodupInv (lastState (init progs) sched) :=
   lastState_nodup sched _ (nodup_init progs)
 
-example : evalCount 1 [1, 2] [3] = specCount 1 [1, 2] [3] := by decide
+example : evalCount 1 [1, 2] [3, 2, 3] = [3] := by decide
 example : evalScan [1, 2] [2, 3] = [1, 2, 3] := by decide
 
 end ILV.Props.C10
